@@ -127,7 +127,8 @@ def gen_ops(r, doc):
             if base and base[-1] == "-":
                 try:
                     par = rp.resolve(cur, base[:-1])
-                    base = base[:-1] + [str(len(par) - 1)]
+                    if isinstance(par, list) and par:
+                        base = base[:-1] + [str(len(par) - 1)]
                 except rp.Unresolvable:
                     pass
             try:
